@@ -129,7 +129,7 @@ def run(ctx):
 
         fn = repo.func(rel, f"{cls}.apply")
         where = f"{rel}:{cls}.apply"
-        fn = canonicalise(fn, bind_roles(fn, {"mover": ("assign", "~_FileMover\\(\\) if .*")}, where))
+        fn = canonicalise(fn, bind_roles(fn, {"mover": ("assign", lambda t, n: "_FileMover()" in t)}, where))
         g = build_cfg(fn, fallible=fallible)
         ctx.fact(len(g.nodes))
         p1 = need(where, calling(g, attr="_apply_removals", recv="self"), "_apply_removals(mover)")
